@@ -74,6 +74,15 @@ def lifetime_modules():
           block('vr', 'let a = %s; let b = Some(%s);' % (X('a'), Xb), 'a + &b', ('X("(a-c[b])")', '1', '1')),
           block('rr', 'let a = %s; let b: Option<X> = None;' % X('a'), '&a + &b', ('X("(c[a]-n)")', '1', '1'))]
     out.append(('Add', item, bl))
+    # 6. Op and OpAssign from a base whose Output is the self type under another spelling (an alias)
+    item = ("impl ::core::ops::Sub for X { type Output = Xa; fn sub(self, rhs: X) -> Xa { tick(); "
+            "X(format!(\"({}-{})\", self.0, rhs.0)) } }\npub type Xa = X;")
+    def ablock2(tag, expr, want):
+        return ('    { let mut a = %s; let b = %s; counts(); %s; let (n, k) = counts(); println!("@ID@\\t%s\\t{:?}\\t{}\\t{}", a, n, k); }'
+                % (X('a'), Xb, expr, tag), (tag,) + want)
+    bl = [ablock2('asg_v', 'a -= b', ('X("(c[a]-b)")', '1', '1')), ablock2('asg_r', 'a -= &b', ('X("(c[a]-c[b])")', '1', '2')),
+          block('rr', 'let a = %s; let b = %s;' % (X('a'), Xb), '&a - &b', ('X("(c[a]-c[b])")', '1', '2'))]
+    out.append(('Sub, SubAssign', item, bl))
     return out
 
 
